@@ -219,7 +219,23 @@ impl Leg for Cold {
     }
 }
 
+/// hundreds of table constructions for changing k on one thread
+pub struct TableHistories;
+impl Leg for TableHistories {
+    type Case = super::sessions::TableHistory;
+    const NAME: &'static str = "table-histories";
+    fn strategy(_tier: Tier) -> BoxedStrategy<Self::Case> {
+        super::sessions::table_history_strategy()
+    }
+    fn check(c: &Self::Case) -> Verdict {
+        super::sessions::check_table_history(c)
+    }
+}
+
 pub fn run(ctx: &mut Ctx) {
+    let nh = ctx.share(ctx.tier.pick(160, 3_200));
+    ctx.run_leg::<TableHistories>(nh, false, 60);
+
     let nc = ctx.share(ctx.tier.pick(300, 6_000));
     ctx.run_leg::<Cold>(nc, false, 40);
     super::coldstart::infra_inconclusive(ctx);
@@ -259,6 +275,7 @@ pub fn replay(leg: &str, case: &serde_json::Value) -> Option<Result<Verdict, Str
             Some(crate::engine::guarded(|| check_header(&c, d.path())))
         }
         "cold-start-threads" => Some(crate::engine::replay_leg::<Cold>(case)),
+        "table-histories" => Some(crate::engine::replay_leg::<TableHistories>(case)),
         _ => None,
     }
 }
